@@ -17,7 +17,9 @@ TECHNIQUE = ('runtime monitoring: independent reference model (textbook '
 RULE = ('inputs: bracket/keyword soup (balanced, unbalanced, interleaved '
         '( ) [ ] CASE END IF "END IF" FOR FOREACH "END LOOP" BEGIN with ::, '
         ':=, AS, commas, dots, comments between), near-valid scripts, '
-        'grammar and procedural scripts, token soup. Oracle: the multiset of '
+        'grammar and procedural scripts, token soup, and (0.4 %) matched '
+        'pairs nested 40-160 deep or 1500-4000 sibling groups in one list. '
+        'Oracle: the multiset of '
         '(class, opener leaf index, closer leaf index) of all Parenthesis/'
         'SquareBrackets/Case/If/For/Begin nodes equals what a stack matcher '
         'finds (kinds in the engine\'s order, later kinds inside - never '
@@ -176,6 +178,27 @@ def check_text(ctx, kind, text):
         rec.sample({'source': kind, 'text': text[:200]})
 
 
+def deep_or_wide(rng):
+    """Properly matched pairs nested 40-160 deep, or 1500-4000 sibling
+    groups in one list: size must not change what is a matched pair."""
+    x = rng.random()
+    inner = rng.choice(['1', 'case when a then 1 end', 'a[1]', '(x)',
+                        'begin x end', 'f(1, 2)'])
+    if x < 0.5:
+        d = rng.choice([40, 70, 101, 130, 160])
+        o, c = rng.choice([('(', ')'), ('(', ')'), ('f(', ')'),
+                           ('case when a then ', ' end'), ('a[', ']'),
+                           ('( ', ' )')])
+        return 'deep', 'select ' + o * d + inner + c * d + ' from t'
+    n = rng.choice([1500, 2600, 4000])
+    if x < 0.8:
+        row = rng.choice(['(%d)', '(%d, \'x\')', '(f(%d))', '(a[%d])'])
+        return 'wide', 'insert into t values ' + ', '.join(
+            row % i for i in range(n)) + ';'
+    return 'wide', 'select ' + ' '.join(
+        'case when a then %d end' % i for i in range(n // 2)) + ' from t'
+
+
 def shard(ctx):
     rng = ctx.rng
     gen = grammar.Gen(rng)
@@ -183,7 +206,9 @@ def shard(ctx):
     single = grammar.Layout(rng, ws='single', comments=0.0)
     while ctx.running():
         x = rng.random()
-        if x < 0.12:
+        if x < 0.004:
+            kind, text = deep_or_wide(rng)
+        elif x < 0.12:
             kind, text = 'bracketcross', hostile.bracket_cross(rng)
         elif x < 0.45:
             kind, text = 'blocksoup', hostile.block_soup(rng)
